@@ -86,7 +86,7 @@ def sensitivity(args):
         props = prop if isinstance(prop, list) else [prop]
         caught_by = []
         for p in props:
-            rc, d, out = run_check(p, cases, 16, 0, 20260925, wrapper=[sys.executable, os.path.join(ROOT, "tools", "with_mutant.py")] + spec)
+            rc, d, out = run_check(p, max(cases, m.get("cases", 0)), 16, 0, 20260925, wrapper=[sys.executable, os.path.join(ROOT, "tools", "with_mutant.py")] + spec)
             if "MUTANT-DOES-NOT-APPLY" in out:
                 caught_by = ["DOES-NOT-APPLY"]
                 break
